@@ -2,6 +2,7 @@ package rules
 
 import (
 	"fmt"
+	"go/constant"
 	"go/token"
 	"go/types"
 	"sort"
@@ -34,10 +35,20 @@ func isStoreCall(c *core.CallInfo, names ...string) bool {
 
 // critSection describes the per-object critical section a function body runs in.
 type critSection struct {
-	closure *ssa.Function // the closure passed to Run
+	closure *ssa.Function // the closure (or bound method: `op.run`) passed to Run
 	runCall *ssa.Call
 	bucket  ssa.Value // arguments of lockName(bucket, name)
 	name    ssa.Value
+	recv    ssa.Value // for a bound method: the receiver object at the Run call
+}
+
+// recvBinds: for a section that is a bound method, the binding of its receiver parameter to the
+// object it was bound to at the Run call (fields of the receiver then denote what the handler put there).
+func (s *critSection) recvBinds() []binding {
+	if s == nil || s.recv == nil || len(s.closure.Params) == 0 {
+		return nil
+	}
+	return []binding{{callee: s.closure, recv: s.recv}}
 }
 
 // lockWrapper: an in-repository function that does nothing with its function parameter
@@ -87,22 +98,22 @@ func lockWrappers(p *core.Program) map[*ssa.Function]*lockWrapper {
 			if fi < 0 {
 				continue
 			}
-			key, ok := core.Resolve(args[1]).(*ssa.Call)
-			if !ok || !core.FuncIs(key.Call.StaticCallee(), core.PkgGcsemu, "lockName") {
+			kb, kn, ok := lockKeyParts(args[1])
+			if !ok {
 				continue
 			}
-			w := &lockWrapper{fnParam: fi, bucketP: paramIdx(fn, key.Call.Args[0]), nameP: paramIdx(fn, key.Call.Args[1])}
+			w := &lockWrapper{fnParam: fi, bucketP: paramIdx(fn, kb), nameP: paramIdx(fn, kn)}
 			if w.bucketP < 0 {
-				if _, isK := core.Resolve(key.Call.Args[0]).(*ssa.Const); !isK {
+				if _, isK := core.Resolve(kb).(*ssa.Const); !isK {
 					continue
 				}
-				w.bucketC = core.Resolve(key.Call.Args[0])
+				w.bucketC = core.Resolve(kb)
 			}
 			if w.nameP < 0 {
-				if _, isK := core.Resolve(key.Call.Args[1]).(*ssa.Const); !isK {
+				if _, isK := core.Resolve(kn).(*ssa.Const); !isK {
 					continue
 				}
-				w.nameC = core.Resolve(key.Call.Args[1])
+				w.nameC = core.Resolve(kn)
 			}
 			// the function parameter is used for nothing else
 			only := true
@@ -125,6 +136,36 @@ func lockWrappers(p *core.Program) map[*ssa.Function]*lockWrapper {
 	return m
 }
 
+// lockKeyParts splits a lock key into the (bucket, name) it is built from: lockName(b, n), or
+// the same concatenation written inline (`b + "/" + n`; `b + "/"` for the bucket itself).
+func lockKeyParts(v ssa.Value) (bucket, name ssa.Value, ok bool) {
+	v = core.Resolve(v)
+	if call, isCall := v.(*ssa.Call); isCall {
+		if core.FuncIs(call.Call.StaticCallee(), core.PkgGcsemu, "lockName") && len(call.Call.Args) == 2 {
+			return call.Call.Args[0], call.Call.Args[1], true
+		}
+		return nil, nil, false
+	}
+	outer, isBin := v.(*ssa.BinOp)
+	if !isBin || outer.Op != token.ADD {
+		return nil, nil, false
+	}
+	isSep := func(x ssa.Value) bool { sv, isS := core.ConstString(x); return isS && sv == "/" }
+	// b + "/"
+	if isSep(outer.Y) {
+		return outer.X, ssa.NewConst(constant.MakeString(""), outer.Y.Type()), true
+	}
+	// (b + "/") + n
+	if inner, isIn := core.Resolve(outer.X).(*ssa.BinOp); isIn && inner.Op == token.ADD && isSep(inner.Y) {
+		return inner.X, outer.Y, true
+	}
+	// b + ("/" + n)
+	if inner, isIn := core.Resolve(outer.Y).(*ssa.BinOp); isIn && inner.Op == token.ADD && isSep(inner.X) {
+		return outer.X, inner.Y, true
+	}
+	return nil, nil, false
+}
+
 // isLockRunCall: a call of TransientLockMap.Run or of a lock wrapper.
 func isLockRunCall(p *core.Program, ci *core.CallInfo) bool {
 	if ci.MethodOn(core.PkgGcsutil, "TransientLockMap", "Run") {
@@ -137,10 +178,26 @@ func isLockRunCall(p *core.Program, ci *core.CallInfo) bool {
 // whose key is lockName(b, n) — directly, or through a lock wrapper.
 func sectionOfClosure(p *core.Program, fn *ssa.Function) (*critSection, string) {
 	par := fn.Parent()
+	var search []*ssa.Function
 	if par == nil {
-		return nil, "not a closure"
+		// a method handed to Run as a bound method value (`g.locks.Run(ctx, key, op.run)`)
+		if fn.Signature.Recv() == nil || fn.Pkg == nil {
+			return nil, "not a closure"
+		}
+		search = p.SrcFuncs(fn.Pkg.Pkg.Path())
+	} else {
+		search = core.Family(core.Root(par))
 	}
-	for _, f := range core.Family(core.Root(par)) {
+	boundRecv := func(v ssa.Value) ssa.Value {
+		if par != nil {
+			return nil
+		}
+		if mc, isMC := core.Resolve(v).(*ssa.MakeClosure); isMC && len(mc.Bindings) == 1 {
+			return mc.Bindings[0]
+		}
+		return nil
+	}
+	for _, f := range search {
 		for _, ci := range core.AllCalls(f) {
 			if w := lockWrappers(p)[ci.Static]; ci.Static != nil && w != nil {
 				if w.fnParam >= len(ci.Common.Args) || closureOf(ci.Common.Args[w.fnParam]) != fn {
@@ -150,7 +207,10 @@ func sectionOfClosure(p *core.Program, fn *ssa.Function) (*critSection, string) 
 				if !ok {
 					return nil, "the lock wrapper is not called directly (go/defer)"
 				}
-				sec := &critSection{closure: fn, runCall: call, bucket: w.bucketC, name: w.nameC}
+				sec := &critSection{closure: fn, runCall: call, bucket: w.bucketC, name: w.nameC, recv: boundRecv(ci.Common.Args[w.fnParam])}
+				if par == nil && sec.recv == nil {
+					continue
+				}
 				if w.bucketP >= 0 {
 					sec.bucket = ci.Common.Args[w.bucketP]
 				}
@@ -170,12 +230,19 @@ func sectionOfClosure(p *core.Program, fn *ssa.Function) (*critSection, string) 
 			if !ok {
 				return nil, "Run is not called directly (go/defer)"
 			}
-			key, ok := core.Resolve(args[1]).(*ssa.Call)
-			if !ok || !core.FuncIs(key.Call.StaticCallee(), core.PkgGcsemu, "lockName") {
+			kb, kn, ok := lockKeyParts(args[1])
+			if !ok {
 				return nil, "the lock key is not built by lockName(bucket, name)"
 			}
-			return &critSection{closure: fn, runCall: call, bucket: key.Call.Args[0], name: key.Call.Args[1]}, ""
+			sec := &critSection{closure: fn, runCall: call, bucket: kb, name: kn, recv: boundRecv(args[2])}
+			if par == nil && sec.recv == nil {
+				continue
+			}
+			return sec, ""
 		}
+	}
+	if par == nil {
+		return nil, "not a closure"
 	}
 	return nil, "closure is not passed to TransientLockMap.Run"
 }
@@ -185,6 +252,7 @@ func sectionOfClosure(p *core.Program, fn *ssa.Function) (*critSection, string) 
 type binding struct {
 	callee *ssa.Function
 	call   *ssa.Call
+	recv   ssa.Value // instead of call: the object bound to callee's receiver (bound method value)
 }
 
 // substKey computes a canonical *access path* of v: loads and address-of
@@ -203,6 +271,12 @@ func substKey(v ssa.Value, binds []binding, depth int) string {
 	case *ssa.Parameter:
 		for _, b := range binds {
 			if x.Parent() == b.callee {
+				if b.recv != nil {
+					if len(b.callee.Params) > 0 && b.callee.Params[0] == x {
+						return substKey(b.recv, binds, depth+1)
+					}
+					continue
+				}
 				for i, q := range b.callee.Params {
 					if q == x && i < len(b.call.Call.Args) {
 						return substKey(b.call.Call.Args[i], binds, depth+1)
@@ -234,6 +308,22 @@ func substKey(v ssa.Value, binds []binding, depth int) string {
 	case *ssa.Field:
 		return substKey(x.X, binds, depth+1) + "." + fieldNameOf(x.X.Type(), x.Field)
 	case *ssa.FieldAddr:
+		// a field of a struct literal built here (`&deleteOp{bucket: bucket, …}`), assigned once: what was put there
+		if lit := structLiteralOf(x.X, binds); lit != nil {
+			var vals []ssa.Value
+			for _, r := range core.Referrers(lit) {
+				if fa, isFa := r.(*ssa.FieldAddr); isFa && fa.Field == x.Field {
+					for _, rr := range core.Referrers(fa) {
+						if st, isSt := rr.(*ssa.Store); isSt && st.Addr == ssa.Value(fa) {
+							vals = append(vals, st.Val)
+						}
+					}
+				}
+			}
+			if len(vals) == 1 {
+				return substKey(vals[0], binds, depth+1)
+			}
+		}
 		return substKey(x.X, binds, depth+1) + "." + fieldNameOf(x.X.Type(), x.Field)
 	case *ssa.UnOp:
 		if x.Op == token.MUL {
@@ -251,6 +341,48 @@ func substKey(v ssa.Value, binds []binding, depth int) string {
 		return "(" + substKey(x.X, binds, depth+1) + x.Op.String() + substKey(x.Y, binds, depth+1) + ")"
 	}
 	return fmt.Sprintf("%T@%d", v, v.Pos())
+}
+
+// structLiteralOf: v (possibly a bound receiver parameter) denotes a struct allocated by a literal.
+func structLiteralOf(v ssa.Value, binds []binding) *ssa.Alloc {
+	viaRecv := false // only the receiver of a bound-method section is followed to its literal
+	for i := 0; i < 4; i++ {
+		v = core.Strip(v)
+		switch x := v.(type) {
+		case *ssa.Alloc:
+			if _, isStruct := x.Type().(*types.Pointer).Elem().Underlying().(*types.Struct); isStruct && viaRecv {
+				return x
+			}
+			return nil
+		case *ssa.Parameter:
+			next := ssa.Value(nil)
+			for _, b := range binds {
+				if b.recv != nil && x.Parent() == b.callee && len(b.callee.Params) > 0 && b.callee.Params[0] == x {
+					next = b.recv
+				}
+			}
+			if next == nil {
+				return nil
+			}
+			viaRecv = true
+			v = next
+		case *ssa.UnOp:
+			if x.Op != token.MUL {
+				return nil
+			}
+			// a pointer variable assigned once
+			if cell := core.CellOf(x.X); cell != nil {
+				if sts := core.StoresTo(cell); len(sts) == 1 {
+					v = sts[0].Val
+					continue
+				}
+			}
+			return nil
+		default:
+			return nil
+		}
+	}
+	return nil
 }
 
 func fieldNameOf(t types.Type, idx int) string {
@@ -331,7 +463,7 @@ func R11() Rule {
 			sectionsOf = func(f *ssa.Function, binds []binding, depth int) {
 				sec, why := sectionOfClosure(c.P, f)
 				if sec != nil {
-					ctxs = append(ctxs, ctxt{sec: sec, binds: binds})
+					ctxs = append(ctxs, ctxt{sec: sec, binds: append(append([]binding(nil), binds...), sec.recvBinds()...)})
 					return
 				}
 				if f.Parent() != nil {
